@@ -24,6 +24,9 @@ TYPES = {
     # pin bundle with an unrodded region above it (core length of the layouts is 0.05 m)
     'au': dict(n=3, P=0.0052, D=0.0042, Dw=0.0008, ftf=FTF, axial=[('upper', 0.03, 0.05, 0.3)]),
     'al': dict(n=3, P=0.0052, D=0.0042, Dw=0.0008, ftf=FTF, axial=[('lower', 0.0, 0.02, 0.3), ('upper', 0.04, 0.05, 0.3)]),
+    # wall faces listed outer-first (the reader and the regions accept any order)
+    'a2r': dict(n=2, ftf=tuple(reversed(FTF))),
+    'ddr': dict(n=2, P=0.0062, D=0.0050, Dw=0.0008, ftf=(0.026, 0.028, 0.019, 0.021)),
     # double-ducted assemblies on the low-fidelity models (walls of different thickness)
     'du': dict(n=2, P=0.0062, D=0.0050, Dw=0.0008, ftf=(0.019, 0.021, 0.0265, 0.028), lowfid='simple'),
     'd6': dict(n=2, P=0.0062, D=0.0050, Dw=0.0008, ftf=(0.019, 0.021, 0.0265, 0.028), lowfid='6node'),
@@ -43,6 +46,9 @@ LAYOUTS = {
     # equal cell counts, different pitches on a shared side (square but non-identity duct<->gap maps)
     'two-au-a2': [('au', 1, 1), ('a2', 2, 1)],
     'three-al-au-a2': [('al', 1, 1), ('au', 2, 1), ('a2', 2, 3)],
+    'three-ur-u6-a2': [('ur', 1, 1), ('u6', 2, 1), ('a2', 2, 2)],      # two neighbouring assemblies without a pin mesh
+    'two-a2r-a3': [('a2r', 1, 1), ('a3', 2, 1)],
+    'three-ddr-a3-a2r': [('ddr', 1, 1), ('a3', 2, 1), ('a2r', 2, 2)],
     'three-a2-du-d6': [('a2', 1, 1), ('du', 2, 1), ('d6', 2, 2)],
     'three-a3-b3-a2': [('a3', 1, 1), ('b3', 2, 1), ('a2', 2, 2)],
     'seven-alt': [('a4', 1, 1), ('a3', 2, 1), ('a2', 2, 2), ('a3', 2, 3), ('a2', 2, 4), ('a3', 2, 5), ('a2', 2, 6)],
